@@ -186,6 +186,33 @@ impl Ctx {
             .or_insert(0) += n;
     }
 
+    /// Serialise the violations collected so far (used by child processes
+    /// that explore a sub-box under a different process-wide configuration).
+    pub fn export_violations(&self) -> Json {
+        let b = self.buckets.lock().unwrap();
+        Json::Array(
+            b.values()
+                .map(|x| json!({"signature": x.first.signature, "case": x.first.case, "detail": x.first.detail, "count": x.count}))
+                .collect(),
+        )
+    }
+
+    /// Merge violations exported by a child process.
+    pub fn import_violations(&self, v: &Json) {
+        for e in v.as_array().cloned().unwrap_or_default() {
+            let n = e["count"].as_u64().unwrap_or(1);
+            for _ in 0..n.min(1) {
+                self.violation(e["signature"].as_str().unwrap_or("?"), e["case"].clone(), e["detail"].as_str().unwrap_or(""));
+            }
+            if n > 1 {
+                let mut b = self.buckets.lock().unwrap();
+                if let Some(bk) = b.get_mut(e["signature"].as_str().unwrap_or("?")) {
+                    bk.count += n - 1;
+                }
+            }
+        }
+    }
+
     pub fn violation_count(&self) -> u64 {
         self.buckets.lock().unwrap().values().map(|b| b.count).sum()
     }
